@@ -1,6 +1,8 @@
 (* C02deep — conditional constant propagation (model Passes.ccp) preserves the behaviour of every
-   well-formed function, on the paths of the model that are flagged "proved" (everything except the loop
-   peeling / single-iteration / invariant-loop-variable rewrites of the While case). *)
+   well-formed function, on the paths of the model that are flagged "proved": everything except the two
+   rewrites of the While case that re-optimise already optimised statements (single-iteration loop, peeling).
+   Both runs are taken in mode Add (+ and - checked): the input run does not overflow there and neither does
+   the output run, so rounds compose (refines_add); `refines` (mode All in, mode Wrap out) is a corollary. *)
 From Coq Require Import ZArith NArith List Bool Lia.
 Import ListNotations.
 From SV Require Import Common.Int32 C02.Kernels C02.Proofs C02deep.Syntax C02deep.Sem C02deep.Passes
@@ -34,10 +36,11 @@ Qed.
 
 Section Ccp.
   Variables (w : world) (fuel : nat) (g : ver).
-  Notation exec_o := (exec All w fuel).
-  Notation exec_block_o := (exec_block All w fuel).
-  Notation exec_t := (exec Wrap w fuel).
-  Notation exec_block_t := (exec_block Wrap w fuel).
+  (* both runs check + and - (mode Add): the input run does not overflow there, and neither does the output *)
+  Notation exec_o := (exec Add w fuel).
+  Notation exec_block_o := (exec_block Add w fuel).
+  Notation exec_t := (exec Add w fuel).
+  Notation exec_block_t := (exec_block Add w fuel).
 
   Definition dyn (ro : res) (out : list stmt) (c' : cx) (brk : bool) (S bs ds : list name) (et : env) (tr : trace) : Prop :=
     match ro with
@@ -101,7 +104,7 @@ Section Ccp.
        match xo eo tr with
        | RNext eo' tr' => exists v, eo' = (x, v) :: eo /\ exec_t st' et tr = RNext ((x, v) :: et) tr' /\
             forall op y k, c' = bind_b x (op, y, k) c ->
-              In y S /\ ovf op (eval w et (EVar y)) k = false /\ rt_binop op (eval w et (EVar y)) k = Val v
+              In y S /\ chk Add op && ovf op (eval w et (EVar y)) k = false /\ rt_binop op (eval w et (EVar y)) k = Val v
        | RBreak _ _ _ => False
        | _ => True
        end) ->
@@ -206,11 +209,11 @@ Section Ccp.
   (* ---------------------------------------------------------------- Binary *)
   Lemma bin_step x op e1 e2 eo tr (G : res -> Prop) :
     G ROvf -> G (RTrap tr) ->
-    (forall v, ovf op (eval w eo e1) (eval w eo e2) = false ->
+    (forall v, chk Add op && ovf op (eval w eo e1) (eval w eo e2) = false ->
                rt_binop op (eval w eo e1) (eval w eo e2) = Val v -> G (RNext ((x, v) :: eo) tr)) ->
     G (exec_o (SBin x op e1 e2) eo tr).
   Proof.
-    intros H1 H2 H3. cbn. destruct (ovf op _ _) eqn:E; cbn; [assumption|].
+    intros H1 H2 H3. cbn [exec]. destruct (chk Add op && ovf op _ _) eqn:E; [assumption|].
     destruct (rt_binop op _ _) eqn:R; auto.
   Qed.
 
@@ -218,7 +221,7 @@ Section Ccp.
     ccp_bound x e c = Some (out, c', brk, f) ->
     (forall D, cx_wf c D -> incl' S0 D -> forall y, e = EVar y -> In y D) ->
     (forall D S eo et v, cx_wf c D -> incl' S0 S -> incl' S D -> Rel w c S eo et ->
-       ovf op (eval w eo e1) (eval w eo e2) = false -> rt_binop op (eval w eo e1) (eval w eo e2) = Val v ->
+       chk Add op && ovf op (eval w eo e1) (eval w eo e2) = false -> rt_binop op (eval w eo e1) (eval w eo e2) = Val v ->
        wrap32 v = eval w et e /\ forall y, e = EVar y -> In y S) ->
     good [x] [x] (exec_o (SBin x op e1 e2)) S0 c out c' brk.
   Proof.
@@ -233,18 +236,19 @@ Section Ccp.
        (forall D, cx_wf c D -> incl' S0 D -> In y D /\ in32 k) /\
        (forall en, eval w en sb = k)) ->
     (forall D S eo et v, cx_wf c D -> incl' S0 S -> incl' S D -> Rel w c S eo et ->
-       ovf op (eval w eo e1) (eval w eo e2) = false -> rt_binop op (eval w eo e1) (eval w eo e2) = Val v ->
+       chk Add op && ovf op (eval w eo e1) (eval w eo e2) = false -> rt_binop op (eval w eo e1) (eval w eo e2) = Val v ->
        rt_binop sop (eval w et sa) (eval w et sb) = Val v /\
-       (c' = c \/ (ovf sop (eval w et sa) (eval w et sb) = false /\ forall y, sa = EVar y -> In y S))) ->
+       chk Add sop && ovf sop (eval w et sa) (eval w et sb) = false /\
+       (c' = c \/ forall y, sa = EVar y -> In y S)) ->
     good [x] [x] (exec_o (SBin x op e1 e2)) S0 c [SBin x sop sa sb] c' false.
   Proof.
     intros Hc Hdy. eapply kept_good; [reflexivity | |].
     - destruct Hc as [->|(y & k & -> & _ & Hyk & _)]; [left; reflexivity|]. right. eauto.
     - intros D S eo et tr Hwf Hi1 Hi2 HR. apply bin_step; auto.
-      intros v Ho Hv. destruct (Hdy D S eo et v Hwf Hi1 Hi2 HR Ho Hv) as (Ht & Hrec).
+      intros v Ho Hv. destruct (Hdy D S eo et v Hwf Hi1 Hi2 HR Ho Hv) as (Ht & Hot & Hrec).
       exists v. split; [reflexivity|]. split.
-      + cbn. rewrite Ht. reflexivity.
-      + intros op' y' k' E. destruct Hrec as [->|[Hot Hy]].
+      + cbn [exec]. rewrite Hot, Ht. reflexivity.
+      + intros op' y' k' E. destruct Hrec as [->|Hy].
         * exfalso. symmetry in E. eapply bind_b_neq; eauto.
         * destruct Hc as [->|(y & k & -> & -> & _ & Hk)].
           -- exfalso. symmetry in E. eapply bind_b_neq; eauto.
@@ -294,10 +298,12 @@ Section Ccp.
     - destruct (flex_unwrapped op e1' e2') as [[op' a'] b'] eqn:F.
       destruct (flex_unwrapped_operands _ _ _ _ _ _ F) as [Oa Ob].
       assert (FS : forall S eo et v, incl' S0 S -> Rel w c S eo et ->
-                 ovf op (eval w eo e1) (eval w eo e2) = false -> rt_binop op (eval w eo e1) (eval w eo e2) = Val v ->
-                 rt_binop op' (eval w et a') (eval w et b') = Val v /\ ovf op' (eval w et a') (eval w et b') = false).
+                 chk Add op && ovf op (eval w eo e1) (eval w eo e2) = false -> rt_binop op (eval w eo e1) (eval w eo e2) = Val v ->
+                 rt_binop op' (eval w et a') (eval w et b') = Val v /\
+                 chk Add op' && ovf op' (eval w et a') (eval w et b') = false).
       { intros S eo et v Hi HR Ho Hv. rewrite (EA S eo et Hi HR), (EB S eo et Hi HR) in Ho, Hv.
-        destruct (flex_unwrapped_sound _ _ _ _ _ _ F w et) as [<- <-]. auto. }
+        destruct (flex_unwrapped_sound _ _ _ _ _ _ F w et) as [<- <-].
+        rewrite (flex_unwrapped_chk Add _ _ _ _ _ _ F). auto. }
       assert (PLAIN : Some ([SBin x op' a' b'], c, false, fl0) = Some (out, c', brk, f) ->
                       good [x] [x] (exec_o (SBin x op e1 e2)) S0 c out c' brk).
       { intros [= <- <- <- <-]. apply kept_bin; [left; reflexivity|].
@@ -314,24 +320,25 @@ Section Ccp.
         destruct (merge_binop op' iop ic (wrap32 c2)) as [[mop mc]|] eqn:Em; [|discriminate].
         injection M as <-. injection H as <- <- <- <-.
         apply kept_bin; [left; reflexivity|].
-        intros D S eo et v Hwf Hi1 Hi2 HR Ho Hv. split; [|left; reflexivity].
+        intros D S eo et v Hwf Hi1 Hi2 HR Ho Hv.
         destruct (FS S eo et v Hi1 HR Ho Hv) as [Hv' Ho'].
         assert (Hv1 : In v1 S) by (eapply VS; eauto; apply operand_var; exact Oa).
         destruct HR as (_ & _ & RB). destruct (RB v1 iop iv ic Hv1 Ea) as (Hiv & Hoi & vi & Hvi & Hz).
         destruct Hwf as [_ W2]. destruct (W2 v1 iop iv ic Ea) as (_ & _ & Hic).
-        rewrite Hz in Hv'. change (eval w et (EInt c2)) with (wrap32 c2) in Hv'.
+        rewrite Hz in Hv', Ho'. change (eval w et (EInt c2)) with (wrap32 c2) in Hv', Ho'.
         destruct (merge_sound op' iop ic (wrap32 c2) mop mc (eval w et (EVar iv)) vi v Em
-                    (eval_in32 _ _ _) Hic (wrap32_in _) Hvi Hoi Hv') as [Hmc Hr].
-        change (eval w et (EInt mc)) with (wrap32 mc). rewrite (wrap32_id mc Hmc). exact Hr.
+                    (eval_in32 _ _ _) Hic (wrap32_in _) Hvi Hoi Hv' Ho') as (Hmc & Hr & Hno).
+        change (eval w et (EInt mc)) with (wrap32 mc). rewrite (wrap32_id mc Hmc). auto.
       + injection H as <- <- <- <-.
         apply kept_bin.
         * right. exists v1, (wrap32 c2). split; [reflexivity|]. split; [reflexivity|]. split.
           -- intros D Hwf Hi. split; [|apply wrap32_in]. eapply VD; eauto. apply operand_var; exact Oa.
           -- intros en. reflexivity.
         * intros D S eo et v Hwf Hi1 Hi2 HR Ho Hv. destruct (FS S eo et v Hi1 HR Ho Hv) as [Hv' Ho'].
-          split; [assumption|]. right. split; [assumption|].
+          split; [assumption|]. split; [assumption|]. right.
           intros y [= <-]. eapply VS; eauto. apply operand_var; exact Oa.
   Qed.
+
   Lemma P_SBin n x op e1 e2 c out c' brk f S0 :
     ccp_stmt g (S n) (SBin x op e1 e2) c = Some (out, c', brk, f) -> scoped S0 (SBin x op e1 e2) = true ->
     good [x] [x] (exec_o (SBin x op e1 e2)) S0 c out c' brk.
@@ -966,10 +973,10 @@ Section Ccp.
       assert (HSnb2 : forall x, In x S -> ~ In x (binders_l s2)) by (intros x Hx Hb; eapply Dj2; eauto).
       destruct b.
       + specialize (Hd1 S eo et tr Hi1 Hi2 HR).
-        pose proof (frame_block All w fuel s1 eo tr) as Fo.
+        pose proof (frame_block Add w fuel s1 eo tr) as Fo.
         destruct (exec_block_o s1 eo tr) as [eo1 tr1|v eo1 tr1| | | | |]; cbn [dyn] in *; auto.
         * destruct Hd1 as (_ & et1 & S1 & Ex1 & HR1 & Lo1 & Up1). split; auto.
-          pose proof (frame_block Wrap w fuel o1 et tr) as Ft. rewrite Ex1 in Ft. cbn in Fo, Ft.
+          pose proof (frame_block Add w fuel o1 et tr) as Ft. rewrite Ex1 in Ft. cbn in Fo, Ft.
           exists (bind_e1 w fas' et1), (map t_name fas ++ S).
           split; [rewrite (target_if cnd' o1 o2 fas' et tr true Eb'), Ex1; reflexivity|].
           split; [|split; [apply incl'_refl | intros x; rewrite !in_app_iff; tauto]].
@@ -988,10 +995,10 @@ Section Ccp.
              pose proof (R2 t y Ht Ev) as B. rewrite in_app_iff in B. destruct B; eauto.
         * destruct Hd1 as [et1 Ex1]. exists et1. rewrite (target_if cnd' o1 o2 fas' et tr true Eb'), Ex1. reflexivity.
       + specialize (Hd2 S eo et tr Hi1 Hi2 HR).
-        pose proof (frame_block All w fuel s2 eo tr) as Fo.
+        pose proof (frame_block Add w fuel s2 eo tr) as Fo.
         destruct (exec_block_o s2 eo tr) as [eo1 tr1|v eo1 tr1| | | | |]; cbn [dyn] in *; auto.
         * destruct Hd2 as (_ & et1 & S1 & Ex1 & HR1 & Lo1 & Up1). split; auto.
-          pose proof (frame_block Wrap w fuel o2 et tr) as Ft. rewrite Ex1 in Ft. cbn in Fo, Ft.
+          pose proof (frame_block Add w fuel o2 et tr) as Ft. rewrite Ex1 in Ft. cbn in Fo, Ft.
           exists (bind_e2 w fas' et1), (map t_name fas ++ S).
           split; [rewrite (target_if cnd' o1 o2 fas' et tr false Eb'), Ex1; reflexivity|].
           split; [|split; [apply incl'_refl | intros x; rewrite !in_app_iff; tauto]].
@@ -1280,10 +1287,10 @@ Section Ccp.
         assert (HiL1 : incl' (LN ++ S0) (LN ++ S)) by (intros x; rewrite !in_app_iff; intros [Hx|Hx]; auto).
         assert (HiL2 : incl' (LN ++ S) (LN ++ D)) by (intros x; rewrite !in_app_iff; intros [Hx|Hx]; auto).
         specialize (Hdb (LN ++ S) eh th t0 HiL1 HiL2 HRL).
-        pose proof (frame_block All w fuel ss eh t0) as Fo.
+        pose proof (frame_block Add w fuel ss eh t0) as Fo.
         destruct (exec_block_o ss eh t0) as [eo1 tr1|v eo1 tr1| | | | |]; cbn [dyn] in *; auto.
         destruct Hdb as (_ & et1 & S1 & Ex1 & HR1 & Lo1 & Up1). exists et1. split; [assumption|].
-        pose proof (frame_block Wrap w fuel body th t0) as Ft. rewrite Ex1 in Ft. cbn in Fo, Ft.
+        pose proof (frame_block Add w fuel body th t0) as Ft. rewrite Ex1 in Ft. cbn in Fo, Ft.
         assert (Fo' : forall x, In x S -> lookup x (bind_e2 w lvs eo1) = lookup x eh).
         { intros x Hx. unfold bind_e2. rewrite (lookup_bind_notin w t_e2) by auto. apply Fo. auto. }
         assert (Ft' : forall x, In x S -> lookup x (bind_e2 w lvs' et1) = lookup x th).
@@ -1300,8 +1307,8 @@ Section Ccp.
             intros y Ey. apply Lo1. specialize (Hl2 t Ht). rewrite Ey in Hl2. apply in_scope_var in Hl2.
             rewrite !in_app_iff in *. destruct Hl2 as [Hy|[Hy|Hy]]; auto. }
       pose proof (loop_sim2 Iv _ _ _ _ Hstep fuel _ _ tr Hinit) as HL.
-      pose proof (frame_stmt All w fuel (SWhile lvs ss bc) eo tr) as FWo.
-      pose proof (frame_stmt Wrap w fuel (SWhile lvs' body bc) et tr) as FWt.
+      pose proof (frame_stmt Add w fuel (SWhile lvs ss bc) eo tr) as FWo.
+      pose proof (frame_stmt Add w fuel (SWhile lvs' body bc) et tr) as FWt.
       rewrite exec_SWhile. rewrite exec_SWhile in FWo, FWt.
       destruct (loop (exec_block_o ss) (bind_e2 w lvs) fuel (bind_e1 w lvs eo) tr) as [? ?|v eo1 tr1| | | | |] eqn:EL;
         cbn [dyn]; auto.
@@ -1388,10 +1395,26 @@ Qed.
 Lemma cx_wf_init D : cx_wf cx0 D.
 Proof. split; intros; discriminate. Qed.
 
-(* the pass, on the proved paths (flag false), refines every well-formed function; g = true is the code as it
-   is, g = false the code before fix 6cdc437 (the paths that repair touched are flagged either way) *)
-Theorem ccp_gen_preserves g w f f' fl :
-  wf_func f = true -> ccp_gen g f = Some (f', fl) -> fst fl = false -> refines w f' f.
+(* "f' reproduces every run of f that does not overflow in + and -, and does not overflow there either":
+   the invariant the optimizer relies on between its rounds; it composes *)
+Definition refines_add (w : world) (f' f : func) : Prop :=
+  forall args fuel v tr, sem Add w f args fuel = Done v tr -> sem Add w f' args fuel = Done v tr.
+
+Lemma refines_add_trans w f1 f2 f3 : refines_add w f2 f1 -> refines_add w f3 f2 -> refines_add w f3 f1.
+Proof. intros H1 H2 args fuel v tr H. auto. Qed.
+
+Lemma mode_le_Add_All : mode_le Add All. Proof. apply mode_le_All. Qed.
+(* ... and implies the reading of the property: no overflow at all in f, any behaviour of the target on f' *)
+Lemma refines_add_refines w f' f : refines_add w f' f -> refines w f' f.
+Proof.
+  intros H args fuel v tr Hs. apply (sem_weaken Wrap Add); [apply mode_le_Wrap|].
+  apply H. apply (sem_weaken Add All); [apply mode_le_All | exact Hs].
+Qed.
+
+(* the pass, on the proved paths (flag false), on every well-formed function; g = ver_now is the code as it
+   is, other versions the code before the repairs (the paths those repairs touched are flagged either way) *)
+Theorem ccp_gen_preserves_add g w f f' fl :
+  wf_func f = true -> ccp_gen g f = Some (f', fl) -> fst fl = false -> refines_add w f' f.
 Proof.
   unfold wf_func, ccp_gen. intros Hwf H Hfl. apply andb_prop in Hwf. destruct Hwf as [Hwf Hret].
   apply andb_prop in Hwf. destruct Hwf as [Hnd Hsc]. apply nodupb_NoDup in Hnd.
@@ -1407,8 +1430,12 @@ Proof.
     unfold sem in *. cbn [f_body f_params f_ret].
     change (init_env {| f_params := f_params f; f_body := out; f_ret := opt_expr (cx_v c) (f_ret f) |} args)
       with (init_env f args).
-    destruct (exec_block All w fuel (f_body f) (init_env f args) []) as [eo' tr'| | | | | |]; try discriminate.
+    destruct (exec_block Add w fuel (f_body f) (init_env f args) []) as [eo' tr'| | | | | |]; try discriminate.
     injection Hsem as <- <-. cbn [dyn] in Hd. destruct Hd as (_ & et' & S' & Ex & HR & Lo & _).
     rewrite Ex. f_equal. symmetry. apply (Rel_expr w c S' eo' et' (f_ret f) HR).
     intros x Ex'. apply Lo. apply in_scope_var. rewrite <- Ex'. exact Hret.
 Qed.
+
+Corollary ccp_gen_preserves g w f f' fl :
+  wf_func f = true -> ccp_gen g f = Some (f', fl) -> fst fl = false -> refines w f' f.
+Proof. intros H1 H2 H3. apply refines_add_refines. eapply ccp_gen_preserves_add; eauto. Qed.
